@@ -172,7 +172,7 @@ fn secure_dump(node: &Node) -> BTreeMap<String, (String, i32, bool)> {
 }
 
 fn secure_dump_db(node: &Node, db: &str) -> BTreeMap<String, (String, i32, bool)> {
-    node.dump().remove(db).unwrap_or_default().into_iter().filter(|(k, _)| k.starts_with("$$")).collect()
+    node.dump_db(db).unwrap_or_default().into_iter().filter(|(k, _)| k.starts_with("$$")).collect()
 }
 
 // ------------------------------------------------------------------ the same pairs over HTTP
